@@ -24,7 +24,7 @@ from ..core import h64, vacuity
 from ..model import M
 
 LEVEL = 'model_checking'
-RULE = ('part A: every matrix over {0,1,2} of the tier\'s shapes x every construction route (17) – all '
+RULE = ('part A: every matrix over {0,1,2} (and over {0,-2,0.5} on the smallest shapes) of the tier\'s shapes x every construction route (25, incl. float32 / integer inputs) – all '
         'ordered pairs compared with ==, != and descriptive_equality, exports compared, every single-field '
         'neighbour must be unequal; non-trivial = matrix with a non-zero cell. part B: explicit-state '
         'search of a content-preserving alphabet (with read accessors as transitions) to fixpoint; all '
@@ -35,7 +35,7 @@ OID = ['o10', 'o9', 'o2']
 SID = ['s2', 's1', 's3']
 ROUTES = ['dense', 'nested', 'triples', 'triples0', 'dict', 'rows', 'csr', 'csc', 'coo', 'lil', 'dok',
           'csr_unsorted', 'csr_stored0', 'colread', 'sort_inverse', 'TT', 'copy', 'filter_all', 'nnzread',
-          'matrix_data_zero', 'subsample_full']
+          'matrix_data_zero', 'subsample_full', 'csr_f32', 'coo_i64', 'dense_f32', 'dense_int']
 
 
 def route(name, D, oids, sids, omd, smd, ttype):
@@ -68,6 +68,17 @@ def route(name, D, oids, sids, omd, smd, ttype):
         return T([D[i, :].copy() for i in range(N)])
     if name in ('csr', 'csc', 'coo', 'lil', 'dok'):
         return T(getattr(sp, name + '_matrix')(D))
+    # the same numbers held in another numeric type by the caller (all values used here are exact in every one)
+    if name in ('csr_f32', 'coo_i64', 'dense_f32', 'dense_int'):
+        if name.endswith(('i64', 'int')) and not np.all(D == np.floor(D)):
+            return None
+        if name == 'csr_f32':
+            return T(sp.csr_matrix(D, dtype=np.float32))
+        if name == 'coo_i64':
+            return T(sp.coo_matrix(D.astype(np.int64)))
+        if name == 'dense_f32':
+            return T(D.astype(np.float32))
+        return T(D.astype(int))
     if name == 'csr_unsorted':
         m = sp.csr_matrix(D)
         for r in range(N):
@@ -114,7 +125,7 @@ def route(name, D, oids, sids, omd, smd, ttype):
         return t
     if name == 'subsample_full':
         tot = D.sum(axis=0)
-        if not (np.all(D == np.floor(D)) and len(set(tot)) == 1 and tot[0] >= 1 and
+        if not (np.all(D >= 0) and np.all(D == np.floor(D)) and len(set(tot)) == 1 and tot[0] >= 1 and
                 np.all(D.sum(axis=1) > 0)):
             return None
         r = t.subsample(int(tot[0]), seed=5)
@@ -162,6 +173,26 @@ def exports(t, tmp, tag):
     return e
 
 
+def export_matrices(e, N, Mm):
+    """dense matrices decoded from the TSV text, the JSON document and the raw HDF5 file"""
+    out = {}
+    try:
+        rows = [ln.split('\t') for ln in e['tsv'].split('\n') if ln and not ln.startswith('#')]
+        out['tsv'] = [[float(x) for x in r[1:1 + Mm]] for r in rows]
+    except Exception as ex:
+        out['tsv'] = 'undecodable: %s' % ex
+    try:
+        m = np.zeros((N, Mm))
+        for i, j, v in e['json']['data']:
+            m[int(i), int(j)] = float(v)
+        out['json'] = m.tolist()
+    except Exception as ex:
+        out['json'] = 'undecodable: %s' % ex
+    out['hdf5'] = e['hdf5'].get('observation/dense')
+    out['hdf5-sample-view'] = e['hdf5'].get('sample/dense')
+    return out
+
+
 def queries(t):
     oids, sids = list(t.ids('observation')), list(t.ids())
     q = []
@@ -202,8 +233,13 @@ def cases(tier, seed):
     for sh in shapes:
         for vals in itertools.product((0, 1, 2), repeat=sh[0] * sh[1]):
             out.append({'shape': list(sh), 'vals': list(vals), 'md': (sum(vals) + len(out)) % 2 == 0})
+    # negative and fractional values (exact in float32 as well)
+    for sh in ((1, 1), (1, 2), (2, 1)) + (((2, 2),) if tier == 'thorough' else ()):
+        for vals in itertools.product((0, -2, 0.5), repeat=sh[0] * sh[1]):
+            if any(v not in (0,) for v in vals):
+                out.append({'shape': list(sh), 'vals': list(vals), 'md': len(out) % 2 == 0})
     if tier == 'quick':
-        for vals in ([1, 0, 2, 0, 2, 1], [1, 1, 1, 1, 1, 1], [0, 0, 0, 0, 0, 0], [2, 1, 0, 0, 1, 2]):
+        for vals in ([1, 0, 2, 0, 2, 1], [1, 0, -2, 0, 0.5, -1], [1, 1, 1, 1, 1, 1], [0, 0, 0, 0, 0, 0], [2, 1, 0, 0, 1, 2]):
             for sh in ((2, 3), (3, 2)):
                 out.append({'shape': list(sh), 'vals': vals, 'md': True})
     return out
@@ -325,6 +361,13 @@ def check(case, acc, tmp):
             bad('export-raised', 'export of route %s raised %s: %s' % (rn, type(ex).__name__, ex), route=rn)
             continue
         acc.evals += 1
+        # the three forms carry the values of the matrix (so they also agree with each other)
+        for kind, mat in export_matrices(e, N, Mm).items():
+            if mat != D.tolist():
+                bad('export-values:' + kind, '%s export of route %s holds %r, the matrix is %r' % (kind, rn, mat, D.tolist()),
+                    route=rn)
+            else:
+                acc.count('clause:export-values')
         if ref is None:
             ref = (rn, e, q)
             continue
